@@ -27,7 +27,7 @@ def addV (v : Char) (l : List Char) : List Char := if l.contains v then l else l
 
 def scanEv (sc : Scan) (ev : String) : Scan :=
   match ev.toList with
-  | 'o' :: _ => { sc with opened := true }
+  | 'o' :: _ => { sc with opened := true, closed := false }   -- a (re-)materialisation opens the provider again
   | 's' :: _ =>
     let v := sc.viol
     let v := if !sc.opened then addV 'B' v else v
@@ -54,7 +54,8 @@ def hasCmap (c : Case) : Bool := c.op == "cmap" || c.op == "nest"
 
 def spec (c : Case) (o : Obs) : Bool × String :=
   if c.trials > 1 then (true, "") else
-  if o.res == "hang" || o.res == "crash" || o.res == "panic" then (false, s!"run ended with {o.res}") else
+  if (o.res.splitOn "/").any (fun r => r == "hang" || r == "crash" || r == "panic") then
+    (false, s!"run ended with {o.res}") else
   let sc := scanLog o
   if sc.viol.isEmpty then (true, "")
   else
